@@ -149,14 +149,10 @@ package soymsg
 //@   ghost cur string = ""
 //@   at call (*regexp.Regexp).ReplaceAllString#0 assert[first-strip-the-outer-underscores;C10] arg0 == leadingOrTrailing_ && same(arg1, ident) && arg2 == ""
 //@   at call (*regexp.Regexp).ReplaceAllString#0 after set cur = res
-//@   at call (*regexp.Regexp).ReplaceAllString#1 assert[then-collapse-underscore-runs;C10] arg0 == consecutive_ && same(arg1, cur)
+//@   at call soymsg.insertWordBoundaries#0 assert[then-mark-the-word-boundaries;C10] same(arg0, cur)
+//@   at call soymsg.insertWordBoundaries#0 after set cur = res
+//@   at call (*regexp.Regexp).ReplaceAllString#1 assert[then-collapse-underscore-runs;C10] arg0 == consecutive_ && same(arg1, cur) && arg2 == "_"
 //@   at call (*regexp.Regexp).ReplaceAllString#1 after set cur = res
-//@   at call (*regexp.Regexp).ReplaceAllString#2 assert[then-the-capitalised-word-boundary;C10] arg0 == wordBoundary1 && same(arg1, cur) && arg2 == "${1}_${2}"
-//@   at call (*regexp.Regexp).ReplaceAllString#2 after set cur = res
-//@   at call (*regexp.Regexp).ReplaceAllString#3 assert[then-the-letter-digit-boundary;C10] arg0 == wordBoundary2 && same(arg1, cur) && arg2 == "${1}_${2}"
-//@   at call (*regexp.Regexp).ReplaceAllString#3 after set cur = res
-//@   at call (*regexp.Regexp).ReplaceAllString#4 assert[then-the-digit-letter-boundary;C10] arg0 == wordBoundary3 && same(arg1, cur) && arg2 == "${1}_${2}"
-//@   at call (*regexp.Regexp).ReplaceAllString#4 after set cur = res
 //@   at call strings.ToUpper#0 assert[finally-upper-cased;C10] same(arg0, cur)
 
 // C11: a translated string is cut at its {NAME} occurrences: the text between
@@ -190,16 +186,44 @@ package soymsg
 //@   at call soymsg.hash32#0 assert[first-half-over-the-whole-string;C10] sameslice(arg0, str) && arg1 == 0 && arg2 == len(str) && arg3 == 0
 //@   at call soymsg.hash32#1 assert[second-half-over-the-whole-string-with-the-second-seed;C10] sameslice(arg0, str) && arg1 == 0 && arg2 == len(str) && arg3 == 102072
 
-// C10: base names follow the official derivation: strip leading / trailing
-// underscores, collapse runs of underscores, put an underscore at the three
-// word boundaries (letter|Upper-lower, letter|digit, digit|letter), in that
-// order, then upper-case. The five patterns and the five passes are pinned.
+// C10: base names follow the official derivation (BaseUtils.convertToUpperUnderscore):
+// strip leading / trailing underscores, put an underscore at every word
+// boundary (letter|Upper-lower, letter|digit, digit|letter - found with
+// zero-width look-arounds in official Soy, so boundaries may be adjacent),
+// collapse runs of underscores, upper-case.
 //@ func init
 //@   props C10
 //@   nosafety
 //@   modifies *
 //@   at call regexp.MustCompile#0 assert[leading-or-trailing-underscores;C10] arg0 == "^_+|_+$"
 //@   at call regexp.MustCompile#1 assert[runs-of-underscores;C10] arg0 == "__+"
-//@   at call regexp.MustCompile#2 assert[letter-then-capitalised-word;C10] arg0 == "([a-zA-Z])([A-Z][a-z])"
-//@   at call regexp.MustCompile#3 assert[letter-then-digit;C10] arg0 == "([a-zA-Z])([0-9])"
-//@   at call regexp.MustCompile#4 assert[digit-then-letter;C10] arg0 == "([0-9])([a-zA-Z])"
+
+// a word starts at ident[i] exactly at the three boundaries of the official
+// algorithm (ASCII classes, as in its patterns).
+//@ pred asciiLetter(c byte) = 97 <= c && c <= 122 || 65 <= c && c <= 90
+//@ pred asciiDigit(c byte) = 48 <= c && c <= 57
+//@ func isAsciiLetter
+//@   props C10
+//@   pure
+//@   ensures result == asciiLetter(c)
+//@ func isDigit
+//@   props C10
+//@   pure
+//@   ensures result == asciiDigit(c)
+//@ func isWordBoundary
+//@   props C10
+//@   pure
+//@   requires 1 <= i && i < len(ident)
+//@   ensures[letter|Upper-lower,letter|digit,digit|letter;C10] result == (asciiLetter(ident[i-1]) && (asciiDigit(ident[i]) || 65 <= ident[i] && ident[i] <= 90 && i + 1 < len(ident) && 97 <= ident[i+1] && ident[i+1] <= 122) || asciiDigit(ident[i-1]) && asciiLetter(ident[i]))
+//@ func insertWordBoundaries
+//@   props C10 C08 C09
+//@   nosafety nil nilcall assert nilmap
+//@   pure
+//@   ghost wrote int = 0
+//@   at call soymsg.isWordBoundary#0 assert[every-position-after-the-first-is-examined;C10] same(arg0, ident) && arg1 == i
+//@   at call (*bytes.Buffer).WriteByte#0 assert[only-an-underscore-is-inserted;C10] arg1 == 95
+//@   at call (*bytes.Buffer).WriteByte#1 assert[every-character-is-kept-in-order;C10] arg1 == ident[i] && wrote == i
+//@   at call (*bytes.Buffer).WriteByte#1 after set wrote = wrote + 1
+//@   loop 0
+//@     invariant 0 <= i && i <= len(ident) && wrote == i
+//@     decreases len(ident) - i
